@@ -163,11 +163,11 @@ theorem toInt_nonneg_toNat (x : BitVec 64) (h : 0 ≤ x.toInt) : x.toInt.toNat =
 
 @[simp] theorem isolatedRead_data (st : IStream) (off n : BitVec 64) :
     (isolatedRead st off n).1.data = st.data := by
-  unfold isolatedRead; dsimp only; split <;> simp
+  rw [LoadTie.isolatedRead_hand]; dsimp only; split <;> simp
 
 @[simp] theorem isolatedRead_kind (st : IStream) (off n : BitVec 64) :
     (isolatedRead st off n).1.kind = st.kind := by
-  unfold isolatedRead; dsimp only; split <;> simp
+  rw [LoadTie.isolatedRead_hand]; dsimp only; split <;> simp
 
 /-- a complete isolated read delivers exactly the `n` bytes of the stream at `off` -/
 theorem isolatedRead_complete (st : IStream) (off n : BitVec 64)
@@ -178,7 +178,7 @@ theorem isolatedRead_complete (st : IStream) (off n : BitVec 64)
     rcases Nat.eq_zero_or_pos n.toNat with h0 | h0
     · exact absurd (BitVec.eq_of_toNat_eq (by simpa using h0)) hn
     · exact h0
-  unfold isolatedRead at h ⊢
+  rw [LoadTie.isolatedRead_hand] at h ⊢
   dsimp only at h ⊢
   by_cases hneg : n.toInt < 0
   · simp [hneg] at h
@@ -318,6 +318,8 @@ theorem secLoadData_eq (c : Cls) (tr : List Trans) (ls : LoadSt) (b : SecBuf) :
                { b with data := some (alloc 1), dataSize := 0, isLoaded := true }, true)
        else (ls, { b with isLoaded := b.data.isSome || isNullOrNobitsTy b.stype },
              b.data.isSome || isNullOrNobitsTy b.stype)) := by
+  -- the model's conditions are the generated ones; `LoadTie.secLoadData_hand` is their hand form
+  rw [LoadTie.secLoadData_hand]
   cases c <;> rfl
 
 theorem StOk.push {tr img kind} {ls : LoadSt} (h : StOk tr img kind ls) (st : IStream) (n : Nat)
@@ -1134,7 +1136,7 @@ theorem isolatedRead_inrange (st : IStream) (off n : BitVec 64) (h0 : 0 ≤ off.
   have hoff := toInt_nonneg_toNat off h0
   have hs : st.clear.seekg off.toInt = { st.clear with eof := false, pos := off.toNat } := by
     rw [IStream.seekg_ok _ _ rfl h0 (by rw [hoff]; simp only [IStream.clear_data]; omega), hoff]
-  unfold isolatedRead
+  rw [LoadTie.isolatedRead_hand]
   dsimp only
   rw [if_neg (by omega), hs, IStream.read_ok _ _ rfl (by simpa [IStream.clear] using hr)]
   simp [IStream.clear]
@@ -1164,7 +1166,7 @@ theorem isolatedRead_complete_nonneg (st : IStream) (off n : BitVec 64)
     rcases Nat.eq_zero_or_pos n.toNat with h0 | h0
     · exact absurd (BitVec.eq_of_toNat_eq (by simpa using h0)) hn
     · exact h0
-  unfold isolatedRead at h
+  rw [LoadTie.isolatedRead_hand] at h
   dsimp only at h
   by_cases hneg : n.toInt < 0
   · simp [hneg] at h
